@@ -480,6 +480,10 @@ fn ask_parse(ctx: &mut Ctx, src: &str) -> Vec<String> {
     ctx.model.ask(&format!("parse {}", hex(src)))
 }
 
+pub fn span_problem_pub(src: &str, line: &str) -> Option<String> {
+    span_problem(src, line)
+}
+
 fn span_problem(src: &str, line: &str) -> Option<String> {
     // `parse err [(s e) (s e)]`
     let l = line.strip_prefix("parse err ")?;
@@ -1647,6 +1651,7 @@ pub fn run_property(ctx: &mut Ctx) {
         "C15" => {
             suite_c15(ctx, "c15", k(2500, 40000));
             suite_run(ctx, "run", k(1500, 20000));
+            crate::dig::suite_dig(ctx, "dig", k(800, 20000));
         }
         "C10" => {
             suite_run(ctx, "run", k(6000, 60000));
@@ -1667,6 +1672,7 @@ pub fn run_property(ctx: &mut Ctx) {
             suite_text_raw(ctx, "text-raw", k(2500, 150000));
             suite_text_mutants(ctx, "text-mutants", k(1500, 80000));
             suite_lex(ctx, "lex", k(300, 20000));
+            crate::dig::suite_dig(ctx, "dig", k(600, 20000));
         }
         "C12" => {
             suite_text_enum(ctx, "text-enum", if ctx.tier == "thorough" { 4 } else { 3 });
